@@ -144,7 +144,7 @@ Definition failed (o : orun) : bool := match o with OFail => true | _ => false e
 
 (* selected types, in processing order, with the structs they (transitively) embed *)
 Definition struct_embeds (hw : list hfile) (T : string) : list string :=
-  let v := mk_view hw [] [] in
+  let v := pview_of (mk_view hw [] []) in
   let fix go (fuel : nat) (T : string) : list string :=
       match fuel with
       | O => []
@@ -153,13 +153,13 @@ Definition struct_embeds (hw : list hfile) (T : string) : list string :=
                | None => []
                end
       end in
-  go (S (List.length (hand_decls v))) T.
+  go (S (List.length (pv_hand v))) T.
 
 (* input class of K_embed_order: `new` (the accessor interfaces of an embedded type are looked up in the package
    whether or not -getset is given), and some selected type embeds another selected struct *)
 Definition embed_dep (hw : list hfile) (c : cmd) (sel : list string) : bool :=
   match c_sub c with
-  | CNew => existsb (fun T => existsb (fun e => smem e sel) (struct_embeds hw T)) sel
+  | CNew => c_getset c && existsb (fun T => existsb (fun e => smem e sel) (struct_embeds hw T)) sel
   | _ => false
   end.
 
@@ -171,7 +171,18 @@ Definition concat_decls (os : list orun) : list odecl := flat_map (fun o => flat
 Definition union_imports (os : list orun) : list string := flat_map (fun o => flat_map of_imports (files_of o)) os.
 Definition all_floating (os : list orun) : list string := flat_map (fun o => flat_map of_floating (files_of o)) os.
 
+(* x.shootnew.t.go -> .shootnew.t.go: with -type=* the -sep files are named after the file holding the
+   //go:generate line, the -type=T files after the file declaring T (naming is C16's subject) *)
+Fixpoint from_shoot_l (s : list ascii) : list ascii :=
+  match s with
+  | [] => []
+  | _ :: r => if prefix_l (chars ".shoot") s then s else from_shoot_l r
+  end.
+Fixpoint string_of_chars (l : list ascii) : string :=
+  match l with [] => EmptyString | c :: r => String c (string_of_chars r) end.
+Definition type_key (n : string) : string := string_of_chars (from_shoot_l (chars n)).
 Definition lookup_file (n : string) (fs : list ofile) : option ofile := find (fun f => of_name f =? n) fs.
+Definition lookup_key (n : string) (fs : list ofile) : option ofile := find (fun f => type_key (of_name f) =? type_key n) fs.
 Definition same_content (a b : ofile) : bool :=
   odecls_eqb (of_decls a) (of_decls b) && str_list_eqb (of_imports a) (of_imports b) &&
   str_list_eqb (of_floating a) (of_floating b).
@@ -197,7 +208,7 @@ Definition Pb_c08 (k : c08case) : bool :=
     let sf := files_of (k_sep_obs k) in
     let one := flat_map files_of singles in
     Nat.eqb (List.length sf) (List.length one) &&
-    forallb (fun f => match lookup_file (of_name f) sf with Some g => same_content f g | None => false end) one in
+    forallb (fun f => match lookup_key (of_name f) sf with Some g => same_content f g | None => false end) one in
   (* (3) what a type gets does not depend on earlier invocations having run (outside the K_embed_order class) *)
   let p3 :=
     embed_dep hw (k_aio k) sel ||
@@ -233,3 +244,117 @@ Fixpoint mism_from {A : Type} (v : A -> N) (i : N) (cs : list A) : list (N * N) 
   | c :: r => let x := v c in if N.eqb x 0 then mism_from v (N.succ i) r else (i, x) :: mism_from v (N.succ i) r
   end.
 Definition mismatches_c08 := mism_from verdict_c08 0%N.
+
+(* ---------------------------------------------------------------- C07 *)
+(* one process execution: exit class, the generated files of this subcommand in the directory afterwards
+   (name, hash of the bytes, hash of the bytes after the header line), the names it (re)wrote *)
+Record exec_obs := {
+  x_ok : bool;
+  x_files : list (string * N * N);      (* sorted by name *)
+  x_written : list string               (* sorted *)
+}.
+(* one point of a history *)
+Record hpoint := {
+  hp_edit : option pkg0;                (* the hand-written sources are replaced first (earlier output stays: stale) *)
+  hp_delete : bool;                     (* ... the earlier output is deleted first *)
+  hp_execs : list exec_obs;             (* process executions from this same point: in place and in a relocated module *)
+  hp_dirarg : option exec_obs;          (* the command given [dir] from the parent directory (its header quotes that) *)
+  hp_ref : exec_obs                     (* the same command on a fresh copy of the current sources *)
+}.
+Record c07case := { h_pkg : pkg0; h_cmd : cmd; h_points : list hpoint }.
+
+Definition adecl_eqb (a b : adecl) : bool :=
+  (d_name a =? d_name b) && Bool.eqb (d_doc a) (d_doc b) && Bool.eqb (d_tail a) (d_tail b) && str_list_eqb (d_toks a) (d_toks b).
+Definition afile_eqb (a b : afile) : bool :=
+  (a_cmd a =? a_cmd b) && set_eqb (a_imports a) (a_imports b) && str_list_eqb (a_stray a) (a_stray b) &&
+  Nat.eqb (List.length (a_decls a)) (List.length (a_decls b)) &&
+  forallb (fun p => adecl_eqb (fst p) (snd p)) (combine (a_decls a) (a_decls b)).
+
+Definition n3_fst (e : string * N * N) : string := fst (fst e).
+Definition n3_bytes (e : string * N * N) : N := snd (fst e).
+Definition n3_body (e : string * N * N) : N := snd e.
+Definition lookup3 (n : string) (l : list (string * N * N)) : option (string * N * N) := find (fun e => n3_fst e =? n) l.
+
+Definition exec_eqb (a b : exec_obs) : bool :=
+  Bool.eqb (x_ok a) (x_ok b) && str_list_eqb (x_written a) (x_written b) &&
+  Nat.eqb (List.length (x_files a)) (List.length (x_files b)) &&
+  forallb (fun p => (n3_fst (fst p) =? n3_fst (snd p)) && N.eqb (n3_bytes (fst p)) (n3_bytes (snd p))) (combine (x_files a) (x_files b)).
+
+(* selection of the command on the current sources (fresh tree), for the guards *)
+Definition selection (p : pkg) (c : cmd) : list string :=
+  match confirm_types (list_types_of (c_sub c)) c id_oracle (mk_view (p_hw p) (p_aux p) []) with
+  | Some (ts, _) => ts
+  | None => []
+  end.
+
+(* the model along a history: (sources, generated files in the directory, files of the previous directory) *)
+Fixpoint corr_points (c : cmd) (p : pkg) (dir : gfiles) (pts : list hpoint) (prev_obs : list (string * N * N)) : bool :=
+  match pts with
+  | [] => true
+  | pt :: rest =>
+      let p' := match hp_edit pt with Some q => pkg_of q | None => p end in
+      let dir0 := if hp_delete pt then [] else dir in
+      let prev0 := if hp_delete pt then [] else prev_obs in
+      match hp_execs pt with
+      | [] => false
+      | x :: _ =>
+          match run id_oracle p' dir0 c with
+          | OFatal =>
+              negb (x_ok x) && str_list_eqb (x_written x) [] &&
+              str_list_eqb (map fst (listing dir0)) (map n3_fst (x_files x)) &&
+              corr_points c p' dir0 rest (x_files x)
+          | ODone written dir' =>
+              x_ok x &&
+              str_list_eqb (sort_strings written) (x_written x) &&
+              str_list_eqb (map fst (listing dir')) (map n3_fst (x_files x)) &&
+              (* "equal to what was there before this step": model (content) and implementation (bytes) agree *)
+              forallb (fun e => match alookup (n3_fst e) dir0, alookup (n3_fst e) dir', lookup3 (n3_fst e) prev0 with
+                                | Some a, Some b, Some e0 => Bool.eqb (afile_eqb a b) (N.eqb (n3_bytes e0) (n3_bytes e))
+                                | _, _, _ => true
+                                end) (x_files x) &&
+              corr_points c p' dir' rest (x_files x)
+          end
+      end
+  end.
+Definition corr_c07 (k : c07case) : bool := corr_points (h_cmd k) (pkg_of (h_pkg k)) [] (h_points k) [].
+
+(* the property on the observation: every execution of a point gives the same bytes; with [dir] the same bytes after
+   the header line; what a run writes is what the same command writes on a fresh copy of the current sources
+   (outside the input class of K_embed_order / K_aio_overlay_stale: some selected type embeds a selected struct) *)
+Fixpoint Pb_points (c : cmd) (p : pkg) (pts : list hpoint) : bool :=
+  match pts with
+  | [] => true
+  | pt :: rest =>
+      let p' := match hp_edit pt with Some q => pkg_of q | None => p end in
+      match hp_execs pt with
+      | [] => false
+      | x :: xs =>
+          forallb (exec_eqb x) xs &&
+          match hp_dirarg pt with
+          | None => true
+          | Some y =>
+              (* with -type=* the [dir] argument is part of the command line the //go:generate line is matched
+                 against, so the file may be named differently (C16): files are matched by their .shoot<cmd>... suffix *)
+              Bool.eqb (x_ok x) (x_ok y) &&
+              str_list_eqb (sort_strings (map type_key (x_written x))) (sort_strings (map type_key (x_written y))) &&
+              forallb (fun n => match lookup3 n (x_files x),
+                                      find (fun e => type_key (n3_fst e) =? type_key n)
+                                           (filter (fun e => smem (n3_fst e) (x_written y)) (x_files y)) with
+                                | Some a, Some b => N.eqb (n3_body a) (n3_body b)
+                                | _, _ => false
+                                end) (x_written x)
+          end &&
+          (embed_dep (p_hw p') c (selection p' c) ||
+           (Bool.eqb (x_ok x) (x_ok (hp_ref pt)) && str_list_eqb (x_written x) (x_written (hp_ref pt)) &&
+            forallb (fun n => match lookup3 n (x_files x), lookup3 n (x_files (hp_ref pt)) with
+                              | Some a, Some b => N.eqb (n3_bytes a) (n3_bytes b)
+                              | _, _ => false
+                              end) (x_written x))) &&
+          Pb_points c p' rest
+      end
+  end.
+Definition Pb_c07 (k : c07case) : bool := Pb_points (h_cmd k) (pkg_of (h_pkg k)) (h_points k).
+
+Definition verdict_c07 (k : c07case) : N :=
+  if negb (Pb_c07 k) then 2%N else if corr_c07 k then 0%N else 1%N.
+Definition mismatches_c07 := mism_from verdict_c07 0%N.
